@@ -29,7 +29,10 @@ def check_C08(tier, seed):
              "dense-recompact (partition_combine_factor 0 only), odd-table-names (three names with one stem after "
              "sanitising: case pairs, '/', ' ', leading '-' / '.', non-ASCII, > 189 bytes; factors 4/999), "
              "ingest-flush-race (a forced flush starts while one ingestion owns the ingestion lock and a second one "
-             "may be queued; a case counts only if the line-up was observed); factors {0,1,4,999} in the other "
+             "may be queued; a case counts only if the line-up was observed); wal-backlog-restart (3..8 requests of very "
+             "different sizes with no flush - the first lifetime runs with max_wal_files 1000 - then a restart into "
+             "max_wal_files 1 or 2, so that the new lifetime starts over its limit and flushes on its own, then a second "
+             "restart; content checked after each); factors {0,1,4,999} in the other "
              "classes, integer columns of 8/16/32-bit width, io_threads and "
              "wal_flush_compaction_threads in {1,4}, max_partition_size_bytes in {1,40,8Mi}; a case is non-trivial "
              "when it contains a flush or a restart; after every step the model must predict table content, both "
@@ -75,7 +78,10 @@ def check_C07(tier, seed):
                      "byte-level encoders are C01's"],
         rule=HIST_RULE + "classes: dense, absent-columns (column sets change at partition boundaries; F1 once a merged "
              "partition has a partially-NULL column), nulls-no-compaction, nulls-compaction (F1), absent-columns-blind (restart, batch without a column, "
-             "compacting flush with no query in between, content read afterwards), mixed-case-subpartitions (columns "
+             "compacting flush with no query in between, content read afterwards), dense-gap-nullable (three flushed "
+             "partitions of one table in which a float column is dense, then absent for 8/16/24 rows, then NULL in "
+             "every 2nd or 3rd row; factor 2 merges them at the third flush; the model's F1 guard stops there, the "
+             "code preserves the content - which the content oracle requires; the class is outside the F1 matcher), mixed-case-subpartitions (columns "
              "a0 B1 c2 D3 ..., max_partition_size_bytes 10..20: several multi-column files; flush, evict or restart, "
              "read), odd-table-names (sanitised table names, one group of three in three is Events / EVENTS / events; "
              "first request for every table, flush, evict or restart, read), strings (ordinary words; "
